@@ -166,6 +166,10 @@ def quick_instances() -> list[Instance]:
                                ("twofan", 1, 2, [("q1", "0")])]:
         outs, edges = S[shape]
         I.append(Instance(f"{shape}_{nh}x{nw}_busymig", outs, edges, cluster(nh, nw), ext, trace_only=True))
+    # three hosts: one dataset wanted on two hosts that do not produce it (a second transfer while the first is unanswered)
+    for shape, ext in [("fanout", [("m1", "0"), ("m2", "0")]), ("fanout4", [("m1", "0"), ("m4", "0")]), ("diamond", [("s", "0"), ("k", "0")])]:
+        outs, edges = S[shape]
+        I.append(Instance(f"{shape}_3x1_threehosts", outs, edges, cluster(3, 1), ext, trace_only=True))
     # mixed hosts: what Executor registers with one GPU and two workers (w0 has it, w1 has none), next to a GPU-less host
     for shape, nh, nw, gw, gt in [("gpufan", 1, 2, ["h0.w0"], ["g1", "g2", "g3"]), ("gpufan", 2, 2, ["h0.w0"], ["g1", "g2", "g3"]),
                                   ("gpufan", 2, 2, ["h0.w1", "h1.w0"], ["g1", "g2"]), ("gpusrc2", 1, 2, ["h0.w0"], ["g1", "g2"]),
